@@ -5,6 +5,12 @@ import random
 KEYPOOL = ['a', 'b', 'c', 'd', 'e', 'f', 'g']
 
 
+def rval(rng):
+    """value id; 16 gives a record whose unpadded size is an exact multiple of 256 (the harness sizes a value as
+    nblk*256 - 24 - len(key) - v%16), the boundary case of every padding computation"""
+    return rng.choice([1, 2, 3, 4, 5, 6, 7, 8, 16, 16, 16])
+
+
 def gen_seq(rng, sid, focus='c01', nops=None, conf=None):
     nkeys = rng.choice([2, 3, 3, 4, 5])
     keys = KEYPOOL[:nkeys]
@@ -13,7 +19,7 @@ def gen_seq(rng, sid, focus='c01', nops=None, conf=None):
         'splitcap': rng.choice([1, 2, 3, 5, 100]),
         'check_vhash': rng.random() < 0.3,
         'rotflush': rng.choice(['auto', 'auto', 'manual']),
-        'dump_eager': False,
+        'dump_eager': rng.random() < 0.2,
         'bodymax_blk': rng.choice([1, 2]),
         'micro': False,
     }
@@ -55,7 +61,7 @@ def gen_seq(rng, sid, focus='c01', nops=None, conf=None):
             up = True
             continue
         if x < 0.42:
-            v = rng.randrange(1, 9)
+            v = rval(rng)
             nblk = rng.choice([1, 1, 1, 2, 1])
             nblk = min(nblk, c['bodymax_blk'], c['filemax_blk'])
             rev = 0
@@ -85,7 +91,7 @@ def gen_seq(rng, sid, focus='c01', nops=None, conf=None):
         elif gcs:
             ops.append({'op': 'flush'})
             ops.append({'op': 'gc', 'begin': rng.choice([0, 0, 1, 2, -1]), 'end': rng.choice([-1, -1, 0, 1, 2, 3]),
-                        'merge': False, 'twice': rng.random() < 0.3})
+                        'merge': bool(c.get('dump_eager')) and rng.random() < 0.5, 'twice': rng.random() < 0.3})
         else:
             ops.append({'op': 'get', 'k': k})
     if not up:
@@ -110,7 +116,7 @@ def gen_gc(rng, sid, focus='c03'):
             k = rng.choice(keys)
             x = rng.random()
             if x < 0.55:
-                ops.append({'op': 'set', 'k': k, 'v': rng.randrange(1, 9), 'nblk': min(rng.choice([1, 1, 2]), c['bodymax_blk'], fm)})
+                ops.append({'op': 'set', 'k': k, 'v': rval(rng), 'nblk': min(rng.choice([1, 1, 2]), c['bodymax_blk'], fm)})
             elif x < 0.9:
                 ops.append({'op': 'del', 'k': k})
             else:
@@ -126,9 +132,14 @@ def gen_gc(rng, sid, focus='c03'):
     writes(rng.choice([1, 2, 3]))
     ops.append({'op': 'flush'})
     ngc = rng.choice([1, 1, 2])
+    # hint merging before the pass (GC "merge on"): BeforeBucket sleeps SecsBeforeDump+1 seconds, so these scenarios run
+    # with eager dumping (SecsBeforeDump = -1)
+    merge = rng.random() < 0.35
+    if merge:
+        c['dump_eager'] = True
     for g in range(ngc):
         ops.append({'op': 'gc', 'begin': rng.choice([0, 1, 1, 2, 3, -1]), 'end': rng.choice([-1, -1, 1, 2, 3, 4]),
-                    'merge': False, 'twice': rng.random() < 0.3})
+                    'merge': merge, 'twice': rng.random() < 0.3})
         if rng.random() < 0.4:
             writes(rng.choice([1, 2]))
             ops.append({'op': 'flush'})
@@ -177,6 +188,49 @@ def gc_templates():
                                                          'buckets': 16, 'bucket': 15, 'height': 3, 'micro': False},
                                                 'ops': ops})
                                     n += 1
+    return out
+
+
+def gc_twopass_templates():
+    """Two passes in ONE process lifetime over the same first file: pass 1 rewrites a short first file (left short by a
+    restart) in place and makes it GROW with the live records of the next file(s); then keys living in it are
+    overwritten / deleted and pass 2 rewrites it in place again and must shrink it.  In-memory file bookkeeping
+    (size, write head) that went stale in pass 1 shows as superseded records surviving pass 2 (C18), a wrong frame
+    (C17) or wrong reads after a rebuild (C03)."""
+    A = [['k'], ['k', 'p']]
+    B = [['k', 'q', 'r'], ['q', 'r', 's'], ['k', 'q', 'r', 's'], ['q', 'k', 'r']]
+    OVER = [[('set', 'q')], [('set', 'r')], [('set', 'q'), ('set', 'r')], [('del', 'q'), ('set', 'r')], [('set', 'k')], [('set', 'r'), ('set', 's')]]
+    G1 = [(0, 1), (0, -1)]
+    G2 = [(0, 0), (0, -1), (0, 1)]
+    out = []
+    n = 0
+    for a in A:
+        for b in B:
+            for ov in OVER:
+                for g1 in G1:
+                    for g2 in G2:
+                        for fm in (4, 6):
+                            ops = []
+                            v = [0]
+
+                            def st(k):
+                                v[0] += 1
+                                return {'op': 'set', 'k': k, 'v': v[0] % 7 + 1, 'nblk': 1}
+                            ops += [st(k) for k in a]
+                            ops += [{'op': 'close'}, {'op': 'open', 'rm': []}]
+                            ops += [st(k) for k in b]
+                            ops += [{'op': 'close'}, {'op': 'open', 'rm': []}]
+                            ops += [st('y'), {'op': 'flush'}, {'op': 'gc', 'begin': g1[0], 'end': g1[1], 'merge': False}]
+                            ops += [st(k) if o == 'set' else {'op': 'del', 'k': k} for o, k in ov]
+                            # fill the head so that it rotates and the overwritten records become collectable history
+                            ops += [st('z') for _ in range(fm)]
+                            ops += [{'op': 'flush'}, {'op': 'gc', 'begin': g2[0], 'end': g2[1], 'merge': False, 'twice': True},
+                                    {'op': 'close'}, {'op': 'open', 'rm': ['*.idx.*']}, {'op': 'readall'}]
+                            out.append({'id': 'gc2p-%04d' % n, 'family': 'seq',
+                                        'conf': {'filemax_blk': fm, 'splitcap': 3, 'rotflush': 'auto', 'bodymax_blk': 1,
+                                                 'buckets': 16, 'bucket': 15, 'height': 3, 'micro': False},
+                                        'ops': ops})
+                            n += 1
     return out
 
 
